@@ -27,16 +27,17 @@ def scripts_for(prop, tier, rng):
         s += rng.sample(jobgen.graceful_grid(), 300) if q else jobgen.graceful_grid()
         s += jobgen.ticket_scripts(rng, 300 if q else 3000)
         s += jobgen.hook_scripts(rng, 500 if q else 5000)
+        s += jobgen.long_scripts(rng, 40 if q else 400)
         return s
     if prop == "C04":
         return (rng.sample(jobgen.exhaustive_pairs(), 300 if q else 1296) +
-                jobgen.mixed_scripts(rng, 1200 if q else 12000, maxlen=10))
+                jobgen.mixed_scripts(rng, 1200 if q else 12000, maxlen=10) + jobgen.long_scripts(rng, 40 if q else 400))
     if prop == "C06":
         g = jobgen.graceful_grid()
         return (g if not q else rng.sample(g, 1200)) + jobgen.mixed_scripts(rng, 300 if q else 4000)
     if prop == "C07":
         return jobgen.ticket_scripts(rng, 1500 if q else 15000) + \
-            rng.sample(jobgen.exhaustive_single(), 300)
+            rng.sample(jobgen.exhaustive_single(), 300) + jobgen.long_scripts(rng, 40 if q else 400)
     if prop == "C10":
         return jobgen.order_scripts(rng, 400 if q else 3000)
     raise ValueError(prop)
